@@ -1,0 +1,125 @@
+//go:build verif
+
+// Package cmpb is a verification-only facade (build tag "verif") used by the
+// C07/C14 harness. It adds no behaviour: it only exposes the positions carried
+// by errors of the j5s compile path (internal/bcl/errpos) to the external
+// verification harness.
+package cmpb
+
+import (
+	"github.com/pentops/j5/internal/bcl/errpos"
+)
+
+// Pos is one leaf error found in an error tree.
+type Pos struct {
+	HasPos    bool // an errpos.Position is attached
+	HasFile   bool
+	File      string
+	StartLine int // 0-based, as errpos stores them
+	StartCol  int
+	EndLine   int
+	EndCol    int
+	Msg       string
+}
+
+type multi interface{ Unwrap() []error }
+type single interface{ Unwrap() error }
+
+func fromErr(e *errpos.Err) Pos {
+	p := Pos{}
+	if e.Err != nil {
+		p.Msg = e.Err.Error()
+	}
+	if e.Pos != nil {
+		p.HasPos = true
+		if e.Pos.Filename != nil {
+			p.HasFile = true
+			p.File = *e.Pos.Filename
+		}
+		p.StartLine, p.StartCol = e.Pos.Start.Line, e.Pos.Start.Column
+		p.EndLine, p.EndCol = e.Pos.End.Line, e.Pos.End.Column
+	}
+	return p
+}
+
+// Positions walks the error tree (errors.Join lists, %w chains, errpos.Errors,
+// *errpos.ErrorsWithSource, *errpos.Err) without modifying it and returns one
+// entry per leaf. A leaf that is not below an *errpos.Err (or any other
+// errpos.HasPosition) comes back with HasPos == false.
+func Positions(err error) []Pos {
+	var out []Pos
+	var walk func(err error, depth int)
+	walk = func(err error, depth int) {
+		if err == nil || depth > 64 {
+			return
+		}
+		switch e := err.(type) {
+		case *errpos.ErrorsWithSource:
+			for _, x := range e.Errors {
+				out = append(out, fromErr(x))
+			}
+			return
+		case errpos.ErrorsWithSource:
+			for _, x := range e.Errors {
+				out = append(out, fromErr(x))
+			}
+			return
+		case errpos.Errors:
+			for _, x := range e {
+				out = append(out, fromErr(x))
+			}
+			return
+		case *errpos.Err:
+			out = append(out, fromErr(e))
+			return
+		case errpos.HasPosition:
+			p := Pos{Msg: e.Error()}
+			if pp := e.ErrorPosition(); pp != nil {
+				p = fromErr(&errpos.Err{Pos: pp, Err: e})
+			}
+			out = append(out, p)
+			return
+		}
+		if m, ok := err.(multi); ok {
+			for _, x := range m.Unwrap() {
+				walk(x, depth+1)
+			}
+			return
+		}
+		if s, ok := err.(single); ok {
+			if inner := s.Unwrap(); inner != nil {
+				walk(inner, depth+1)
+				return
+			}
+		}
+		out = append(out, Pos{Msg: err.Error()})
+	}
+	walk(err, 0)
+	return out
+}
+
+// LintPositions converts the result of LintFile/LintAll.
+func LintPositions(ws *errpos.ErrorsWithSource) []Pos {
+	if ws == nil {
+		return nil
+	}
+	out := make([]Pos, 0, len(ws.Errors))
+	for _, x := range ws.Errors {
+		out = append(out, fromErr(x))
+	}
+	return out
+}
+
+// HumanString renders lint/compile errors with source context (the CLI's path);
+// exercised by the harness because it indexes into the source lines.
+func HumanString(ws *errpos.ErrorsWithSource, context int) string {
+	if ws == nil {
+		return ""
+	}
+	return ws.HumanString(context)
+}
+
+// AsWithSource finds an *errpos.ErrorsWithSource in the chain, as the CLI does.
+func AsWithSource(err error) (*errpos.ErrorsWithSource, bool) {
+	return errpos.AsErrorsWithSource(err)
+}
